@@ -210,13 +210,19 @@ pub struct CaseOut {
     pub bytes: u64,
 }
 
+pub const LONG_TX: u64 = 1 << 62;
+
 pub fn one_case(case: u64, seed: u64, steps: usize, want_sample: bool) -> CaseOut {
     let mut rng = Rng::derive(seed, 0xC15, case, 0);
     mem::reset(HalMode::Bounce);
     hooks::clear();
     let kind = *rng.pick(&[TKind::Model, TKind::Model, TKind::MmioModern, TKind::MmioLegacy, TKind::Pci, TKind::ModelNoUnset]);
+    // long-transmit mode (seed S133): > 32768 single-byte transmissions on one console, so that the transmit
+    // available index passes 0x8000 and wraps while the device serves on notification only; every combination of
+    // the two ring features is taken in turn
+    let long_tx = case & LONG_TX != 0;
     let mut x = case;
-    let fbits = crate::rng::splitmix64(&mut x);
+    let fbits = if long_tx { case & 3 } else { crate::rng::splitmix64(&mut x) };
     let mut offered = devsim::F_VERSION_1 | 1 | 4;
     if fbits & 1 != 0 {
         offered |= devsim::F_INDIRECT;
@@ -227,7 +233,8 @@ pub fn one_case(case: u64, seed: u64, steps: usize, want_sample: bool) -> CaseOu
     if kind.legacy() {
         offered &= !devsim::F_VERSION_1;
     }
-    let policy = *rng.pick(&[Policy::OnNotify, Policy::Polling, Policy::Eager]);
+    let policy = if long_tx { Policy::OnNotify } else { *rng.pick(&[Policy::OnNotify, Policy::Polling, Policy::Eager]) };
+    let steps = if long_tx { 70_000 } else { steps };
     let mut cfg = vec![0u8; 12];
     cfg[0] = 80;
     cfg[2] = 25;
@@ -280,7 +287,7 @@ pub fn one_case(case: u64, seed: u64, steps: usize, want_sample: bool) -> CaseOu
         if !out.viol.is_empty() || !dev.borrow().viol.is_empty() {
             break;
         }
-        let op = rng.below(100);
+        let op = if long_tx { 99 } else { rng.below(100) };
         match op {
             0..=14 => {
                 // device delivers a chunk at an API boundary
@@ -440,7 +447,7 @@ pub fn one_case(case: u64, seed: u64, steps: usize, want_sample: bool) -> CaseOu
             _ => {
                 // transmit: exactly the caller's bytes
                 let n0 = dev.borrow().tx_log.len();
-                let which = rng.below(3);
+                let which = if long_tx { 0 } else { rng.below(3) };
                 let len = match rng.below(8) {
                     0 => 1,
                     1 => 4096,
@@ -545,7 +552,16 @@ pub fn run(args: &Args, sh: &mut Shard) {
     }
     let n = if args.is_miri() { 48 } else { args.scaled(if args.thorough() { 100_000 } else { 6_000 }) };
     let mut case = args.shard;
-    while case < n {
+    let mut long_done = args.is_miri();
+    loop {
+        if case >= n {
+            if long_done {
+                break;
+            }
+            // one long-transmit run per shard (feature combination = shard mod 4)
+            long_done = true;
+            case = LONG_TX | args.shard;
+        }
         let o = one_case(case, args.seed, steps, sh.want_sample());
         sh.evaluations += 1;
         for (k, v) in &o.counters {
@@ -562,6 +578,10 @@ pub fn run(args: &Args, sh: &mut Shard) {
         }
         if sh.violations.len() >= 8 {
             return;
+        }
+        if case & LONG_TX != 0 {
+            sh.inc("long_transmit_runs_over_index_wrap", 1);
+            break;
         }
         case += args.nshards;
     }
